@@ -380,6 +380,8 @@ func marshalBuf(body ast.Node, roots map[string]int, other *[]string, where stri
 			if ls != "input.Buf" && ls != "dAtA" {
 				continue
 			}
+			// (this covers the definition `dAtA := …` as well: the buffer must be made here, not obtained from
+			// a helper that may hand out storage it still owns)
 			if own(as.Rhs[i]) {
 				roots["rebind-own"]++
 			} else {
